@@ -363,6 +363,7 @@ func presenceCheck(c *Check, id string) {
 		c.Floor("accessor/set", 100)
 		c.Floor("accessor/clear", 60)
 		c.Floor("accessor/isset", 100)
+		c.Floor("accessor/reset-clears-every-presence-byte", 100)
 	}
 }
 
@@ -394,6 +395,41 @@ func (g *genCtx) accessorRules(c *Check, name string, roles map[string]*FuncInfo
 	}
 	if g.unionAccessorRules(c, name, roles) {
 		return
+	}
+	// Reset makes every field absent: each hidden TL2 presence byte of the type is zeroed unconditionally (the TL1 mask
+	// fields are ordinary fields and are reset as such). A byte left set makes IsSetX, the TL2 writer and the JSON writer
+	// report a field that Reset has just removed, while the TL1 writer (mask 0) omits it.
+	if fi := roles["Reset"]; fi != nil {
+		if st, ok := derefStruct(fi.Obj.Type().(*types.Signature).Recv().Type()); ok {
+			var bytes []string
+			for i := 0; i < st.NumFields(); i++ {
+				if strings.HasPrefix(st.Field(i).Name(), "tl2mask") {
+					bytes = append(bytes, st.Field(i).Name())
+				}
+			}
+			if len(bytes) > 0 {
+				ir := buildFuncIR(fi, g.funcs, g.co.Fset)
+				zeroed := map[string]bool{}
+				whole := false
+				for _, n := range ir.Body {
+					if a, ok := n.(*AssignN); ok && a.Tok == token.ASSIGN && len(a.LHS) == 1 && len(a.RHS) == 1 {
+						if strings.HasPrefix(a.LHS[0], "item.tl2mask") && a.RHS[0] == "#0" {
+							zeroed[strings.TrimPrefix(a.LHS[0], "item.")] = true
+						}
+						if a.LHS[0] == "*item" && strings.HasPrefix(a.RHS[0], "lit:") && strings.HasSuffix(a.RHS[0], "{}") {
+							whole = true
+						}
+					}
+				}
+				var missing []string
+				for _, b := range bytes {
+					if !zeroed[b] && !whole {
+						missing = append(missing, b)
+					}
+				}
+				c.Ob("accessor/reset-clears-every-presence-byte", name+".Reset", len(missing) == 0, posStr(g.co.Fset, fi.Decl.Pos()), fmt.Sprintf("presence bytes %v; not zeroed unconditionally by Reset: %v", bytes, missing))
+			}
+		}
 	}
 	accs := map[string]*acc{}
 	get := func(f string) *acc {
